@@ -10,7 +10,7 @@ import (
 	"time"
 )
 
-var kvProps = map[string]bool{"ALL": true, "C01": true, "C05": true, "C06": true, "C07": true, "C17": true, "C02": true, "C08": true, "C09": true, "C18": true, "C11": true}
+var kvProps = map[string]bool{"ALL": true, "C01": true, "C05": true, "C06": true, "C07": true, "C17": true, "C02": true, "C08": true, "C09": true, "C18": true, "C11": true, "C14": true}
 
 // schedPlans: scenario-name prefixes per property.
 var schedPlans = map[string][]string{
